@@ -9,10 +9,12 @@ for spec in sys.argv[1:]:
     impl = parts[3] if len(parts) > 3 and parts[3] else None
     derive = parts[4] if len(parts) > 4 else ""
     body = parts[5] if len(parts) > 5 else ""
+    in_fn = parts[6] if len(parts) > 6 and kind != "region" else ""
     attrs = {"file": f, "kind": kind, "name": name}
     if impl: attrs["impl"] = impl
     if derive: attrs["derive"] = derive
     if body: attrs["body"] = body
+    if in_fn: attrs["in_fn"] = in_fn
     if kind == "region":
         # file:region:name:impl:in_fn:from:to[:from_nth[:to_nth]]
         in_fn, frm, to = parts[4], parts[5], parts[6]
@@ -27,10 +29,11 @@ for spec in sys.argv[1:]:
         if excl: hdr += ' to_exclusive=yes'
         print(hdr); print(text.rstrip("\n")); print("//#end")
         continue
-    ex = X.extract(os.path.join(vf.REPO, f), kind, name, impl)
+    ex = X.extract(os.path.join(vf.REPO, f), kind, name, impl, in_fn or None)
     text, log, loops = vf.normalise_item(attrs, ex["text"])
     hdr = "//#item file=%s kind=%s name=%s" % (f, kind, name)
     if impl: hdr += ' impl="%s"' % impl
     if derive: hdr += " derive=%s" % derive
     if body: hdr += " body=%s" % body
+    if in_fn: hdr += " in_fn=%s" % in_fn
     print(hdr); print(text.rstrip("\n")); print("//#end")
